@@ -253,6 +253,8 @@ def transforms2d():
         F('trinterp2_T_nostart', [P('E', (3, 3)), s], lambda E, s: t2.trinterp2(None, E, s), 'base.trinterp2(None, T1, s)'),
         F('trinterp2_R', [R2, P('E', (2, 2)), s], lambda m, E, s: t2.trinterp2(m, E, s), 'base.trinterp2(R0, R1, s)'),
         F('trinterp2_R_nostart', [P('E', (2, 2)), s], lambda E, s: t2.trinterp2(None, E, s), 'base.trinterp2(None, R1, s)'),
+        F('trnorm2_R', [R2], lambda m: t2.trnorm2(m), 'base.trnorm2(R)'),
+        F('trnorm2_T', [T3], lambda T: t2.trnorm2(T), 'base.trnorm2(T)'),
     ]
 
 def groups():
